@@ -283,6 +283,55 @@ def defuse_program(rng, pid):
             "init": [], "blocks": blocks, "fn": {"name": "f", "in": [], "out": [r]}, "outs": [r]}
 
 
+def defuse_bool_program(rng, pid):
+    """directed family (C17): like defuse_program for BOOLEAN statements: a boolean t defined from a constraint whose only
+    use is one operand position of one later boolean statement (bool_assign_var, left / right operand of a boolean operation,
+    condition / then- / else-operand of bool_select, bool_assume, bool_assert, zext), the result flows into the integer output"""
+    X, Y, B1, B2 = 1, 2, 3, 4
+    t, o = rng.sample([B1, B2], 2)
+    r = rng.choice([X, Y])
+    src = X if r == Y else Y
+    vars_ = [{"n": "x", "t": "int"}, {"n": "y", "t": "int"}, {"n": "b3", "t": "bool"}, {"n": "b4", "t": "bool"}]
+    bc = lambda b, v: {"op": "bassign_cst", "x": b, "c": {"e": {"k": rng.randint(-1, 1), "t": [[rng.choice([1, -1]), v]]}, "r": rng.choice(["le", "lt", "eq"])}}
+    dfn = bc(t, src)
+    other = bc(o, src) if rng.random() < 0.7 else {"op": "havoc", "x": o}
+    u = rng.choice(["bvar", "bop_y", "bop_z", "bsel_c", "bsel_y", "bsel_z", "bassume", "bassert", "zext"])
+    res = o          # boolean receiving the result
+    tail = [{"op": "cast", "f": "zext", "x": r, "y": res, "sk": "bool", "dk": "int", "sw": 1, "dw": 32}]
+    if u == "bvar":
+        use = [{"op": "bassign_var", "x": res, "y": t, "neg": rng.randint(0, 1)}]
+    elif u == "bop_y":
+        use = [{"op": "bop", "f": rng.choice(["and", "or", "xor"]), "x": res, "y": t, "z": o}]
+    elif u == "bop_z":
+        use = [{"op": "bop", "f": rng.choice(["and", "or", "xor"]), "x": res, "y": o, "z": t}]
+    elif u == "bsel_c":
+        use = [{"op": "havoc", "x": r}, {"op": "bassign_cst", "x": res, "c": {"e": {"k": 0, "t": [[1, r]]}, "r": "le"}},
+               {"op": "bselect", "x": res, "c": t, "y": res, "z": o}]
+    elif u == "bsel_y":
+        use = [{"op": "bselect", "x": res, "c": o, "y": t, "z": o}]
+    elif u == "bsel_z":
+        use = [{"op": "bselect", "x": res, "c": o, "y": o, "z": t}]
+    elif u == "bassume":
+        use = [{"op": "bassume", "x": t, "neg": rng.randint(0, 1)}]
+        tail = [{"op": "assign", "x": r, "e": {"k": rng.randint(-1, 1), "t": []}}]
+    elif u == "bassert":
+        use = [{"op": "bassert", "x": t, "id": 1}]
+        tail = [{"op": "assign", "x": r, "e": {"k": rng.randint(-1, 1), "t": []}}]
+    else:
+        use = []
+        tail = [{"op": "cast", "f": "zext", "x": r, "y": t, "sk": "bool", "dk": "int", "sw": 1, "dw": 32}]
+    pre = [{"op": "assign", "x": r, "e": {"k": rng.randint(-1, 1), "t": []}}] if rng.random() < 0.5 else []
+    if rng.random() < 0.5:
+        blocks = [{"succ": [2], "stmts": pre + [other, dfn]}, {"succ": [], "stmts": use + tail}]
+        ex = 2
+    else:
+        blocks = [{"succ": [2, 3], "stmts": pre + [other, dfn]}, {"succ": [4], "stmts": use + tail},
+                  {"succ": [4], "stmts": [{"op": "assign", "x": r, "e": {"k": rng.randint(-1, 1), "t": []}}]}, {"succ": [], "stmts": []}]
+        ex = 4
+    return {"id": pid, "shape": "defuse-bool:%s" % u, "vars": vars_, "kinds": ["int", "int", "bool", "bool"], "nv": 4, "entry": 1, "exit": ex,
+            "init": [], "blocks": blocks, "fn": {"name": "f", "in": [], "out": [r]}, "outs": [r]}
+
+
 def array_live_program(rng, pid):
     """directed family (C18 liveness): two integer variables and two 2-cell arrays A, B (element size 1); array_init, stores at
     constant or symbolic indices flagged strong or weak (either way ONE cell is written and the other keeps flowing through),
